@@ -166,3 +166,38 @@ func verifHarness_C15_getRoute() {
 	verifAssert(r.GetRoute("nope") == nil, "unknown names give nil")
 	verifCover("C15 getRoute")
 }
+
+// A URL built for a route before the route is attached (or before it moves
+// under a group prefix) must not fix what later builds return: BuildURL
+// always reflects the route as it is registered now.
+func verifHarness_C15_buildBeforeAttach() {
+	cfg := verifCfg()
+	pat := []string{"/u/{v}", "/u", `/u/{v:\d+}`, "/u/{v}/{w}"}[cfg%4]
+	early := (cfg/4)%2 == 1
+	how := (cfg / 8) % 2 // 0: NewNamedRoute + AddRoute in the group, 1: NewRoute.NamedTo(r) first, attached in the group later
+	r := New()
+	var rt *Route
+	if how == 0 {
+		rt = NewNamedRoute("n", pat, verifNop, "GET")
+	} else {
+		rt = NewRoute(pat, verifNop, "GET")
+		rt.NamedTo("n", r)
+	}
+	args := []any{"{v}", "7", "{w}", "8"}
+	if early {
+		// a URL asked for too early describes the route as it is then; it must not stick
+		_ = verifCatch(func() { _ = rt.ToURL(args...) })
+		if how == 1 {
+			_ = verifCatch(func() { _ = r.BuildURL("n", args...) })
+		}
+	}
+	r.Group("/api", func() { r.AddRoute(rt) })
+	want := map[string]string{"/u/{v}": "/api/u/7", "/u": "/api/u", `/u/{v:\d+}`: "/api/u/7", "/u/{v}/{w}": "/api/u/7/8"}[pat]
+	var got string
+	k := verifCatch(func() { got = r.BuildURL("n", args...).Path })
+	verifAssert(k == "", "building the URL of a registered named route does not panic")
+	verifAssert(got == want, "the URL is built from the route as registered (group prefix included), whatever was built earlier")
+	m, _, _ := r.QuickMatch("GET", got)
+	verifAssert(m == rt, "and is routed back to the route")
+	verifCover("C15 build before attach")
+}
